@@ -25,7 +25,7 @@ class C11(BaseCheck):
           'end the highest tag must be <= 1 + peak(calls in flight + timed-out-unanswered; per-connection send '
           'queue order from a tap on the transport\'s entry point). Function level: '
           'icontract conditions on TagPool.get/release against a shadow lease set, and the real TagPool with a '
-          'small tag space driven through exhaustion and beyond. non-trivial = at least '
+          'small tag space driven through exhaustion and beyond; a third of them hands 1-25 requests with short deadlines to timeout sink -> serializer -> transport while the connection is still being established (they expire in the open wait and are never written), then sequential calls and a burst: highest tag <= 1 + the most requests that ever held a tag at once. non-trivial = at least '
           '10 requests decoded; distinct by (transport, adversarial frame classes, timeout classes, re-opens, '
           'concurrency bucket)')
   ANCHORS = ('scales.mux.sink:TagPool.get', 'scales.mux.sink:TagPool.release',
@@ -34,7 +34,7 @@ class C11(BaseCheck):
              'scales.kafka.sink:KafkaTransportSink._ProcessReply')
   REQUIRED_ANCHORS = ANCHORS
   REQUIRED_CLASSES = ('thriftmux', 'kafka', 'adv:duplicate-reply', 'adv:unknown-tag', 'adv:reserved-tag-1',
-                      'adv:tag-0', 'adv:huge-tag', 'adv:bitflip-tag', 'error-frame-replies', 'kafka:timeouts', 'tagpool:exhausted', 'tagpool:get-after-refusal', 'direct:bare-messages', 'timeout-before-send', 'timeout-after-send', 're-open',
+                      'adv:tag-0', 'adv:huge-tag', 'adv:bitflip-tag', 'error-frame-replies', 'kafka:timeouts', 'tagpool:exhausted', 'tagpool:get-after-refusal', 'direct:bare-messages', 'direct:expired-while-opening', 'timeout-before-send', 'timeout-after-send', 're-open',
                       'tag-reuse')
   ASSUMPTIONS = ('a tag counts as answered when the client has read the last byte of any R-frame carrying it '
                  '(known from the simulated socket\'s read offsets)',)
@@ -303,6 +303,88 @@ class C11(BaseCheck):
     top.Close()
     env.advance(0.1)
 
+  def _opening_with_deadlines(self, env, rng, out, classes):
+    """Requests with short deadlines handed to timeout sink -> serializer -> ThriftMux transport
+    while the connection is still being established: they expire while they wait for the open and
+    are never written, so none of them may keep a tag; afterwards the tags in use stay bounded by
+    the number of requests that ever held one at the same time."""
+    import gevent
+    from scales.constants import SinkProperties, MessageProperties
+    from scales.loadbalancer.zookeeper import Endpoint
+    from scales.message import Deadline, MethodCallMessage
+    from scales.sink import ClientMessageSink, ClientMessageSinkStack, TimeoutSinkProvider
+    from scales.thriftmux.sink import SocketTransportSink as MuxTransport, ThriftMuxMessageSerializerSink
+    from vlib import servers
+    from vlib.stackworld import get_net, _PORT
+    from vlib.gen.verifsvc import ExtService
+    net = get_net(env)
+    net.reset()
+    _PORT[0] += 1
+    port = _PORT[0]
+    srv = servers.MuxServer(net, 'do', port, servers.DefaultPolicy(0.002))
+    lat = rng.choice([0.2, 0.6])
+    srv.sim.connect_latency = lat
+    tp = MuxTransport.Builder()
+    sp = ThriftMuxMessageSerializerSink.Builder()
+    sp.next_provider = tp
+    tprov = TimeoutSinkProvider()
+    tprov.next_provider = sp
+    top = tprov.CreateSink({SinkProperties.Endpoint: Endpoint('do', port), SinkProperties.Label: 'c11o',
+                            SinkProperties.ServiceInterface: ExtService.Iface})
+    classes.add('direct:expired-while-opening')
+    ev_start = len(env.events)
+    done = []
+
+    class Term(ClientMessageSink):
+      def AsyncProcessRequest(self, *a):
+        raise NotImplementedError()
+
+      def AsyncProcessResponse(self, sink_stack, context, stream, msg):
+        done.append(context)
+    term = Term()
+
+    def request(n_, T):
+      msg = MethodCallMessage(ExtService.Iface, 'echo', ('o%d' % n_,), {})
+      msg.properties[MessageProperties.Endpoint] = None
+      msg.properties[Deadline.KEY] = env.now + T
+      st = ClientMessageSinkStack()
+      st.Push(term, n_)
+      gevent.spawn(top.AsyncProcessRequest, st, msg, None, {})
+    open_ar = top.Open()
+    k = rng.choice([1, 3, 8, 25])
+    for i in range(k):
+      request(i, rng.choice([0.03, 0.05, lat * 0.5]))
+      if rng.random() < 0.3:
+        env.advance(0.002)
+    env.advance(lat * 2 + 0.5)
+    facts = {'transport': 'thriftmux-direct', 'adversarial': ['expired-while-opening']}
+    if not open_ar.ready() or open_ar.exception is not None:
+      out.violate('direct:open-failed', repr(open_ar.exception if open_ar.ready() else 'pending'), facts)
+      return
+    written_early = len([q for q in srv.requests])
+    # strictly sequential answered calls, then a burst
+    m = rng.choice([3, 8])
+    for i in range(m):
+      request(k + i, 5.0)
+      env.advance(0.05)
+    b = rng.choice([2, 6, 15])
+    for i in range(b):
+      request(k + m + i, 5.0)
+    env.advance(1.0)
+    maxtag, _reuse = self._monitor(env, out, None, 'srv.frame', facts, start=ev_start)
+    out.obligations += 1
+    hi = max(maxtag.values() or [1])
+    bound = 1 + max(k, b, 1)
+    if hi > bound:
+      out.violate('tag:unbounded-consumption', 'highest tag %d: %d requests expired while the connection was opening '
+                  '(%d of them were written), then %d sequential calls and a burst of %d; at most %d requests ever held a '
+                  'tag at the same time' % (hi, k, written_early, m, b, bound - 1), facts,
+                  {'maxtag_per_conn': maxtag})
+    for bf in srv.bad_frames:
+      out.violate('bad-frame', 'server could not decode client bytes: %r' % (bf,), facts)
+    top.Close()
+    env.advance(0.1)
+
   def _thriftmux(self, env, rng, idx, tier, out):
     from scales.message import TimeoutError as ScalesTimeout
     from vlib import muxcodec as mc, servers
@@ -312,6 +394,8 @@ class C11(BaseCheck):
     self._tagpool_direct(rng, out, classes)
     if idx % 3 == 0:
       self._direct(env, rng, out, classes)
+    elif idx % 3 == 1:
+      self._opening_with_deadlines(env, rng, out, classes)
     ev_start = len(env.events)
     adversarial = rng.random() < 0.5
     n_eps = rng.choice([1, 1, 2])
